@@ -209,6 +209,57 @@ pub fn c09(d: &[u8]) -> Result<(), String> {
             return Err("ReportBlock".into());
         }
     }
+    // "well-formed packets are always accepted": strings that are unambiguously well-formed per RFC 3550 / 4585
+    // (framed, padding count a multiple of 4 that fits behind everything the count field announces)
+    if d.len() >= 4 {
+        let pc = pad_count(d);
+        let n = count(d) as usize;
+        // the padding the property talks about: a multiple of 4, zero octets ending in the count
+        let pad_ok = pc % 4 == 0 && pc <= d.len() && (pc == 0 || d[d.len() - pc..d.len() - 1].iter().all(|b| *b == 0));
+        let rejected = |what: &str, e: String| Err(format!("well-formed {} rejected: {}", what, e));
+        if framed(d, Some(200), 28) && pad_ok && 28 + 24 * n + pc <= d.len() {
+            if let Err(e) = SenderReport::parse(d) {
+                return rejected("SR", format!("{:?}", e));
+            }
+        }
+        if framed(d, Some(201), 8) && pad_ok && 8 + 24 * n + pc <= d.len() {
+            if let Err(e) = ReceiverReport::parse(d) {
+                return rejected("RR", format!("{:?}", e));
+            }
+        }
+        if framed(d, Some(204), 12) && pad_ok && 12 + pc <= d.len() {
+            if let Err(e) = App::parse(d) {
+                return rejected("APP", format!("{:?}", e));
+            }
+        }
+        if framed(d, Some(203), 4) && pad_ok && 4 + 4 * n + pc <= d.len() {
+            let off = 4 + 4 * n;
+            let end = d.len() - pc;
+            if end == off || off + 1 + d[off] as usize <= end {
+                if let Err(e) = Bye::parse(d) {
+                    return rejected("BYE", format!("{:?}", e));
+                }
+            }
+        }
+        if framed(d, Some(205), 12) && pad_ok && 12 + pc <= d.len() {
+            if let Err(e) = TransportFeedback::parse(d) {
+                return rejected("transport feedback", format!("{:?}", e));
+            }
+        }
+        if framed(d, Some(206), 12) && pad_ok && 12 + pc <= d.len() {
+            if let Err(e) = PayloadFeedback::parse(d) {
+                return rejected("payload feedback", format!("{:?}", e));
+            }
+        }
+        if framed(d, None, 4) && pad_ok && 4 + pc <= d.len() {
+            if let Err(e) = Unknown::parse(d) {
+                return rejected("unknown-type packet", format!("{:?}", e));
+            }
+        }
+    }
+    if d.len() == 24 && ReportBlock::parse(d).is_err() {
+        return Err("24-byte report block rejected".into());
+    }
     Ok(())
 }
 
